@@ -559,7 +559,13 @@ func (st *StateDB) createObject(addr common.Address) (newobj, prev *stateObject)
 	}
 
 	st.setStateObject(newobj)
-	return newobj, prev
+	if prev != nil && !prev.deleted {
+		return newobj, prev
+	}
+	// a deleted object (self-destructed or empty, removed when its transaction was
+	// finalised) is kept only so that the journal can restore it: nothing of it,
+	// in particular no balance it received after its death, is carried over.
+	return newobj, nil
 }
 
 // CreateAccount explicitly creates a state object. If a state object with the address
